@@ -27,7 +27,8 @@ LEVEL_TEXT = ("Placements of cancel / matching response / deadline on a virtual 
               "timeline model. Held = on the schedules explored."
               " Also params objects with a history (reused for a second request, own _meta, own progressToken)."
               ' Also one token governing several in-flight and later requests.'
-              ' Also unprintable and argument-less callback exceptions, falsy progress values.')
+              ' Also unprintable and argument-less callback exceptions, falsy progress values.'
+              ' Also a writer stalled past the deadline while the cancelled notification is due, and several concurrent requests given one params dict.')
 LEVEL_NOTE = ("Trusted: virtual-time loop; the oracle accepts either neighbour inside ambiguous windows "
               "(simultaneous events, response within one poll interval after cancel).")
 RULE = ("schedule = (timeout, cancel time|none|pre, response time|none, traffic pattern, progress stream, "
@@ -522,7 +523,97 @@ def exec_shared_token(ctx, case: Dict[str, Any]) -> None:
     ctx.record(case, shape=shape, nontrivial=True, cls=f"shared_token:{k}+{m}", sample={"case": case, "per_request": shape})
 
 
+def exec_shared_params(ctx, case: Dict[str, Any]) -> None:
+    """k requests in flight together, each on its own connection and with its own progress callback, all given the SAME
+    params dict by the caller. The peer of each connection reads the request `read_delay` after it was handed over,
+    reports progress under the token that request carries (value = the connection's number) and then answers."""
+    from chuk_mcp.protocol.messages.send_message import send_message
+    from vf.ref import msg_to_wire
+    k, read_delay, stagger, pmode = case["k"], case["read_delay"], case["stagger"], case["params"]
+
+    async def main():
+        loop = asyncio.get_running_loop()
+        shared: Dict[str, Any] = {"name": "tool", "arguments": {"x": 1}}
+        if pmode == "own_meta":
+            shared["_meta"] = {"trace": "abc"}
+        before = repr(shared)
+        outs: List[Any] = []
+
+        async def one(i: int):
+            pipe = Pipe(buffer=1000)
+            calls: List[Any] = []
+
+            async def cb(progress, total, message):
+                calls.append((progress, total, message))
+
+            async def peer():
+                req = await pipe.srv_recv.receive()
+                if read_delay:
+                    await asyncio.sleep(read_delay)
+                wire = msg_to_wire(req)    # what a transport serialising at this moment would put on the wire
+                token = ((wire.get("params") or {}).get("_meta") or {}).get("progressToken")
+                from chuk_mcp.protocol.messages.json_rpc_message import JSONRPCMessage
+                await pipe.srv_send.send(JSONRPCMessage.model_validate(
+                    {"jsonrpc": "2.0", "method": "notifications/progress",
+                     "params": {"progressToken": token, "progress": float(i + 1), "total": 10.0, "message": f"conn-{i}"}}))
+                await asyncio.sleep(0.05)
+                await pipe.srv_send.send(JSONRPCMessage.model_validate({"jsonrpc": "2.0", "id": wire.get("id"), "result": {"conn": i}}))
+                return wire
+
+            pt = asyncio.create_task(peer())
+            if stagger:
+                await asyncio.sleep(stagger * i)
+            try:
+                res = ("return", await send_message(pipe.read, pipe.write, "tools/call", shared, timeout=2.0, progress_callback=cb))
+            except BaseException as e:  # noqa
+                if isinstance(e, (KeyboardInterrupt, SystemExit)):
+                    raise
+                res = ("raise", e)
+            wire = await pt
+            pipe.close()
+            outs.append({"i": i, "res": res, "calls": calls, "wire": wire})
+
+        await asyncio.gather(*[asyncio.create_task(one(i)) for i in range(k)])
+        return outs, before, repr(shared)
+
+    try:
+        (outs, before, after), _ = run_virtual(main, max_iterations=300_000)
+    except HangDetected as e:
+        ctx.violation("hang_or_no_deadline", f"shared params: {e}", case)
+        ctx.record(case, shape="hang")
+        return
+    ctx.count("outcomes", len(outs))
+    ctx.count("shared_params_requests", len(outs))
+    shape = []
+    tokens = [((o["wire"].get("params") or {}).get("_meta") or {}).get("progressToken") for o in outs]
+    for o in outs:
+        i = o["i"]
+        want = [(float(i + 1), 10.0, f"conn-{i}")]
+        if o["calls"] != want:
+            ctx.violation("progress_crosstalk_or_loss", f"{k} concurrent requests given one params dict: request on connection {i} "
+                          f"(wire token {tokens[outs.index(o)]!r}; all wire tokens {tokens!r}) got callback invocations "
+                          f"{o['calls']!r}, its peer reported {want!r} under the token the request carried", case)
+        kind, val = o["res"]
+        if kind != "return" or val != {"conn": i}:
+            ctx.violation("wrong_outcome", f"shared params: connection {i} ended with {kind} {val!r}", case)
+        extra = {kk: v for kk, v in (o["wire"].get("params") or {}).items() if kk != "_meta"}
+        if extra != {"name": "tool", "arguments": {"x": 1}} or \
+                {kk: v for kk, v in ((o["wire"].get("params") or {}).get("_meta") or {}).items() if kk != "progressToken"} != \
+                ({"trace": "abc"} if pmode == "own_meta" else {}):
+            ctx.violation("params_altered", f"shared params: connection {i} wrote params {o['wire'].get('params')!r}", case)
+        shape.append([i, kind, len(o["calls"])])
+    ctx.record(case, shape=shape, nontrivial=True, cls=f"shared_params:{k}:{pmode}",
+               sample={"case": case, "per_request": shape, "distinct_wire_tokens": len(set(tokens))})
+
+
 def run(ctx):
+    for kk in (2, 3, 5):
+        for rd in (0.0, 0.02):
+            for st in (0.0, 0.01):
+                for pm in ("plain", "own_meta"):
+                    case = {"shared_params": True, "k": kk, "read_delay": rd, "stagger": st, "params": pm}
+                    if ctx.mine():
+                        exec_shared_params(ctx, case)
     for tc in (0.2, 0.6, 0.95):
         for T in (1.0, 1.3):
             for until in (T + 0.5, T + 5.0):
@@ -545,6 +636,9 @@ def run(ctx):
 
 
 def replay(ctx, case):
+    if case.get("shared_params"):
+        exec_shared_params(ctx, case)
+        return
     if case.get("stalled_writer"):
         exec_stalled_writer(ctx, case)
         return
